@@ -142,9 +142,9 @@ func (s *registrationServiceImpl) getInternalStateDescription(appCtx appctx.Appl
 		Extensions: []statejson.ExtensionDescription{},
 	}
 
-	if s.runtime != nil {
+	if runtime := s.GetRuntime(); runtime != nil {
 		// we use pointer here so that 'runtime' json field is nil if runtime is not set (as opposed to filled with default values)
-		rtdesc := s.runtime.GetRuntimeDescription()
+		rtdesc := runtime.GetRuntimeDescription()
 		isd.Runtime = &rtdesc
 	}
 
